@@ -5,13 +5,15 @@ LEVEL_TEXT = (
     "PROVED (z3; any dataset length, any tokenizer, mazes and tokenizer as opaque objects): dataset-level tokenization MazeDataset.as_tokens returns the per-maze tokenization of the first "
     "min(limit, len) mazes (all of them without a limit) in order, each joined with a single space when asked - for all four limit / join combinations. The delimiter search the parser is built on is proved as well: tokens_between returns the slice between the FIRST occurrences of its delimiters with its documented "
     "exceptions exactly, and (lemma regions_roundtrip) the four region extractors of token_utils recover from a full adjacency-origin-target-path sequence exactly the region lists it was built from, for token lists of any length "
-    "that contain no delimiter. Everything else (coordinate strings, regex splitting, maze reconstruction) is bounded: "
+    "that contain no delimiter. The coordinate writers are proved as well: the legacy unique-token modes write a cell as the single token `(row,col)`, the legacy indexed mode as the five tokens ( row , col ), "
+    "and (lemma coord_tokens_agree) these are exactly the tokens of the modular equivalents CoordTokenizers.UT / CoordTokenizers.CTT with default delimiters, for every cell. Everything else (coordinate strings, regex splitting, maze reconstruction) is bounded: "
     + 'Bounded: the coordinate string codec is checked completely over all coordinates < 50 (its whole vocabulary range); maze round trips for the three legacy modes and their modular equivalents on all spanning trees of 2x2/3x3 and seeded larger mazes, as token lists and joined strings; legacy vs modular token multisets compared with an independent parser; dataset-level tokenization against per-maze tokenization.'
 )
 LEVEL_NOTE = "Trusted: regex/str semantics of CPython (outside the SMT-decidable fragment); limit >= 0."
 TECHNIQUE = "bounded run-time checking of the real tokenizers (complete coordinate codec, enumerated round trips) + a contract on dataset-level tokenization discharged by z3"
-CONTRACT_MODULES = ["contracts.dstokens", "contracts.sequencing"]
-PROVE = [("maze_dataset/dataset/maze_dataset.py", "MazeDataset.as_tokens"), ("maze_dataset/token_utils.py", "tokens_between"), ("/verif/contracts/lemmas_src.py", "regions_roundtrip")]
+CONTRACT_MODULES = ["contracts.dstokens", "contracts.sequencing", "contracts.coordtok"]
+PROVE = [("maze_dataset/dataset/maze_dataset.py", "MazeDataset.as_tokens"), ("maze_dataset/token_utils.py", "tokens_between"), ("/verif/contracts/lemmas_src.py", "regions_roundtrip"),
+         ("maze_dataset/token_utils.py", "_coord_to_strings_UT"), ("maze_dataset/token_utils.py", "_coord_to_strings_indexed"), ("/verif/contracts/lemmas_src.py", "coord_tokens_agree")]
 ASSUMPTIONS = []
 EXPLANATION = "see DESIGN.md C07"
 
